@@ -230,9 +230,8 @@ def report_body(chk, m, expected, name, bs, jp, jt, fo, what):
         chk.mismatches.append(f'model not replayable (no typed endpoint with content type {expected}): {what}'); return
     ev = lambda t: bool(m.eval(t, model_completion=True))
     ct = concrete_ct(m, name, bs)
-    if ct == 'non-ascii':
-        chk.mismatches.append(f'model not replayable (non-ASCII content type over a text protocol client): {what}'); return
     mt_req = (ct or 'application/json').split(';')[0].rstrip(' \t').lower()
+    if ct == 'non-ascii': mt_req = MIME[expected]      # an undecodable header value: the body is what the endpoint would otherwise accept
     # the body is written in the format the request announces (that is what the code will try to decode)
     if mt_req == MIME['UrlEncoded']:
         body = 'to=m&amount=1' if ev(fo) else 'to=m&amount=notanumber'
@@ -245,7 +244,7 @@ def report_body(chk, m, expected, name, bs, jp, jt, fo, what):
     nat = replay([case])[0]
     import re as _re
     mt = (ct or 'application/json').split(';')[0].rstrip(' \t').lower()
-    want_ok = valid and mt == MIME[expected]
+    want_ok = valid and mt == MIME[expected] and ct != 'non-ascii'
     bad = (nat.get('status') == 200) != want_ok or (nat.get('entered', 0) > 0) != want_ok or (not want_ok and not (400 <= nat.get('status', 0) <= 499))
     chk.counterexample(f'{what}: endpoint expects {MIME[expected]}, request Content-Type {ct!r}, body {body!r} -> native {nat}', case, bad,
                        role=f'typed-body:{expected}')
@@ -258,20 +257,44 @@ def query_and_path(chk, ex):
     F_p = mir.find(f, r'(^|::)http_extract_path_params$')
     qok = z3.Bool('query_decodes')
     has_q = z3.Bool('has_query')
-    local = [(r'^serde_urlencoded::from_str::', lambda ex, a, c: ex.ok(Opaque('parsed-query', dv(a[0]))) if ex.truth(qok) else ex.err(Opaque('urlencoded::Error'))),
+    fed = []
+    def m_from_str(ex, a, c):
+        fed.append(dv(a[0]))
+        return ex.ok(Opaque('parsed-query', dv(a[0]))) if ex.truth(qok) else ex.err(Opaque('urlencoded::Error'))
+    def m_decode_opaque(ex, a, c):
+        # percent-decoding the whole query before the form decoder sees it: some other text (when it is UTF-8 at all)
+        if ex.truth(z3.Bool('whole_query_decodes_to_utf8')): return ex.ok(Opaque('percent-decoded', dv(a[0]).payload))
+        return ex.err(Opaque('Utf8Error'))
+    local = [(r'^serde_urlencoded::from_str::', m_from_str),
+             (r'PercentDecode::<.*>::decode_utf8$', m_decode_opaque),
+             (r'PercentDecode::<.*>::decode_utf8_lossy$', lambda ex, a, c: Opaque('percent-decoded', dv(a[0]).payload)),
+             (r'<Cow<.*str> as Deref>::deref$|Cow::<.*str>::as_ref$|<Cow<.*str> as AsRef<str>>::as_ref$', lambda ex, a, c: dv(a[0])),
              (r'RequestInfo::uri$|handler::<impl at [^>]*>::uri$', lambda ex, a, c: Ref(Cell(Opaque('uri'))), True),
              (r'Uri::query$', lambda ex, a, c: ex.some(Opaque('raw-query')) if ex.truth(has_q) else ex.none())]
+    def hq(ex):
+        del fed[:]
+        r = ex.call_fn(F_q, [Ref(Cell(Opaque('request-info')))])
+        return r, list(fed)
     ex.models = local + ex.models
     try:
-        outs = ex.explore(lambda ex: ex.call_fn(F_q, [Ref(Cell(Opaque('request-info')))]), [])
+        outs = ex.explore(hq, [])
     finally:
         ex.models = ex.models[len(local):]
     chk.paths += len(outs)
-    for pc, (k, r) in outs:
+    for pc, (k, rr) in outs:
         if k != 'ok':
             m = chk.prove('query/no-panic', pc, z3.BoolVal(True))
-            if m is not None: chk.mismatches.append(f'http_request_load_query panics: {r}')
+            if m is not None: chk.mismatches.append(f'http_request_load_query panics: {rr}')
             continue
+        r, got = rr
+        # the form decoder (which splits on & and = and then percent-decodes each piece once) is handed the query exactly as it arrived
+        raw_ok = (not got and r.discr == 1) or len(got) == 1 and ((isinstance(got[0], Opaque) and got[0].tag == 'raw-query') or got[0] == '' or (type(got[0]).__name__ == 'SB' and not got[0].bs))
+        m = chk.prove('query/decoder-is-fed-the-raw-query', pc, z3.BoolVal(not raw_ok))
+        if m is not None:
+            case = {'op': 'typed_request', 'method': 'GET', 'target': '/q?n=%2531'}
+            nat = replay([case])[0]
+            chk.counterexample(f'the query decoder is handed {got} instead of the raw query string: GET /q?n=%2531 (the text `%31`, not a number) -> native {nat}', case,
+                               not (400 <= nat.get('status', 0) <= 499 and nat.get('entered') == 0), role='query:raw')
         if r.discr == 0: m = chk.prove('query/accepted-only-if-decoder-accepts', pc, z3.Not(qok))
         else:
             st = httpmodel.status_of(ex, ex.payload(r))
@@ -446,6 +469,10 @@ def witnesses(chk):
         ('GET', '/p/-1/1/1', None, '', False), ('GET', '/p/a/1/1', None, '', False), ('GET', '/p/+7/+7/+7', None, '', True),
         ('GET', '/q?n=1', None, '', True), ('GET', '/q?n=65536', None, '', False), ('GET', '/q?n=1&color=Blue', None, '', False), ('GET', '/q?n=1&color=Red', None, '', True),
         ('GET', '/q', None, '', False), ('GET', '/q?n=1&n=2', None, '', False), ('GET', '/q?n=1&flag=maybe', None, '', False),
+        # decoded exactly once: `%2531` is the text `%31`, not the number 1; an encoded `&` or `=` does not start a new pair
+        ('GET', '/q?n=%2531', None, '', False), ('GET', '/q?n=%31', None, '', True), ('GET', '/q?s=x%26n%3D1', None, '', False), ('GET', '/q?n=1&color=%2552ed', None, '', False),
+        ('POST', '/json', 'non-ascii', '{"to":"m","amount":1}', False), ('GET', '/p2/65535/18446744073709551615/-32768/-2147483648/-9223372036854775808', None, '', True),
+        ('GET', '/p2/65536/1/1/1/1', None, '', False), ('GET', '/p2/1/18446744073709551616/1/1/1', None, '', False), ('GET', '/p2/1/1/1/1/9223372036854775808', None, '', False),
         ('POST', '/text', 'text/plain', [0xff, 0xfe], False), ('POST', '/text', 'text/plain', 'hello', True),
     ]
     reqs = [{'op': 'typed_request', 'method': m_, 'target': t, 'content_type': ct, 'body': b} for m_, t, ct, b, _ in cases]
